@@ -48,12 +48,15 @@ def make_stub(name):
 class LookupCase(Case):
     family = "plugin-lookup"
 
-    def __init__(self, cid, history, maxlen=8, second_manager=False):
-        """history: list of (registered name, universe key, prioritize)"""
-        self.id, self.history, self.maxlen, self.second = cid, history, maxlen, second_manager
+    def __init__(self, cid, history, maxlen=8, second_manager=False, later=()):
+        """history: list of (registered name, universe key, prioritize); later: registrations made *after*
+        a first lookup of the same string (the second lookup must see them)"""
+        self.id, self.history, self.maxlen, self.second, self.later = cid, history, maxlen, second_manager, list(later)
+        if self.later:
+            self.family = "plugin-lookup/interleaved"
 
     def describe(self):
-        return f"history={self.history} |method|<={self.maxlen} second_manager={self.second}"
+        return f"history={self.history} then_lookup_then={self.later} |method|<={self.maxlen} second_manager={self.second}"
 
     def inputs(self, env):
         return {"s": env.string("s", self.maxlen)}
@@ -80,9 +83,11 @@ class LookupCase(Case):
         pm, before, dup = self.build()
         registry = list(pm.plugins("optimizer"))
         # every constant the symbolic string can meet in a dict or set
-        cands = {n for n, _ in registry}
+        cands = {n for n, _ in registry} | {r[0].lower() for r in self.later}
         for n, p in registry:
             cands |= self.methods_of(p)
+        for r in self.later:
+            cands |= set(UNIVERSE[r[1]][0])
         set_candidates(cands)
         s = inp["s"]
         other = PluginManager() if self.second else None
@@ -100,6 +105,15 @@ class LookupCase(Case):
             pass
         out = {"got": got, "err": err is not None, "sup": sup, "again": again, "registry": registry, "dup": dup,
                "before": before, "after": [n for n, _ in pm.plugins("optimizer")]}
+        if self.later:
+            for reg_name, key, prio in self.later:
+                pm.add_plugin("optimizer", reg_name, make_stub(key), prioritize=prio)
+            out["registry2"] = list(pm.plugins("optimizer"))
+            try:
+                out["got2"] = pm.get_plugin("optimizer", s)
+            except ConfigError:
+                out["got2"] = None
+            out["sup2"] = pm.is_supported("optimizer", s)
         if other is not None:
             out["other_after"] = [n for n, _ in other.plugins("optimizer")]
             out["other_before"] = other_before
@@ -158,6 +172,16 @@ class LookupCase(Case):
         props.append(("lookup_is_repeatable", SB(o["again"] is o["got"])))
         props.append(("undiscoverable_never_returned_for_bare_name",
                       SB(True) if o["got"] is None or o["got"].allows_discovery else self.has_slash(s)))
+        if self.later:
+            plugs2 = list(o["registry2"])
+            if isinstance(s, str):
+                exp2 = self.reference(plugs2, s)
+                props.append(("lookup_after_later_registration_is_reference_result", SB(exp2 is o["got2"])))
+            else:
+                conds2 = self.reference_sym(plugs2, s)
+                key2 = id(o["got2"]) if o["got2"] is not None else None
+                props.append(("lookup_after_later_registration_is_reference_result", SB(conds2.get(key2, False))))
+            props.append(("is_supported_after_later_registration", SB(bool(o["sup2"]) == (o["got2"] is not None))))
         if self.second:
             props.append(("other_manager_unaffected", SB(o["other_after"] == o["other_before"])))
             props.append(("other_manager_never_returns_added_plugin", SB(getattr(o["other_got"], "label", None) is None)))
@@ -238,6 +262,9 @@ def build_cases(tier):
     add([("gamma", "gamma", False), ("alpha", "alpha", True), ("ALPHA", "beta", True)])   # duplicate after prioritisation
     add([("alpha", "alpha", True), ("beta", "beta", True)], second_manager=True)
     add([("scipy", "alpha", False), ("x", "gamma", False)])                               # duplicate of an entry-point plug-in
+    add([("alpha", "alpha", False)], later=[("beta", "beta", True)])                         # lookup, prioritised add, lookup again
+    add([], later=[("gamma", "gamma", True), ("alpha", "alpha", True)])
+    add([("beta", "beta", False)], later=[("alpha", "alpha", False)], second_manager=True)
     if tier == "thorough":
         names = ["alpha", "beta", "gamma"]
         for perm in itertools.permutations(names, 3):
